@@ -307,7 +307,7 @@ theorem revealBefore_stepT (H : Hyp a T) (R : Ptr → Rat) {B M A : List Word} {
           · rw [hord] at hc'; omega
           · rw [m4, o2, hord] at hc'
             rw [hord]; omega
-        · exact closedP_of_cn H (M ++ A.take ka) (bw.take kb) x Lw hLwF m3
+        · exact closedP_of_cn H (M ++ A.take ka) (bw.take kb) x Lw hLwF m3.toCN
       refine ⟨hcl, ?_⟩
       intro kk hk1 hk2
       have hk1' : right.length + v.nextUse < kk := hk1
@@ -328,5 +328,82 @@ theorem revealBefore_stepT (H : Hyp a T) (R : Ptr → Rat) {B M A : List Word} {
         apply closedP_dead H hcl
         apply take_ne_nil (by omega)
         simp only [List.length_drop]; omega
+
+
+/-- contexts that are dead beyond `nu` words of `h`: the score only depends on the first `nu` words -/
+theorem score_cut (H : Hyp a T) (w : Word) (X h : List Word) (nu m : Nat) (hm : nu ≤ m)
+    (hd : ∀ kk, nu < kk → kk ≤ h.length → ¬ live a (X ++ h.take kk)) :
+    score a (X ++ h.take m) w = score a (X ++ h) w := by
+  have e : X ++ h = (X ++ h.take m) ++ h.drop m := by rw [List.append_assoc, List.take_append_drop]
+  rw [e]
+  symm
+  apply score_dead H
+  intro k hk1 hk2
+  have : X ++ h.take m ++ (h.drop m).take k = X ++ h.take (m + k) := by
+    rw [List.append_assoc, ← List.take_add]
+  rw [this]
+  simp only [List.length_drop] at hk2
+  exact hd _ (by omega) (by omega)
+
+theorem F_succ (M A : List Word) (ka : Nat) (hka : ka < A.length) : M ++ A.take (ka+1) = (M ++ A.take ka) ++ [A[ka]] := by
+  rw [List.take_succ_eq_append_getElem hka, List.append_assoc]
+
+theorem psum_append (R : Ptr → Rat) (F l Q : List Word) (L : Nat) (hL : L ≤ F.length) : psum R (F ++ l) Q L = psum R F Q L := by
+  unfold psum
+  apply dsum_congr
+  intro j _ hj
+  rw [pre_append F l (by omega)]
+
+theorem gm1_append (F l : List Word) (L : Nat) (hL : L ≤ F.length) : gm1 (F ++ l) L = gm1 F L := by
+  unfold gm1
+  rw [List.take_append_of_le_length hL]
+
+/-- closure witness of the write loop for pointer `ka` of `A`, as closure of `M ++ A.take (ka+1)` -/
+theorem closedP_of_cnA (H : Hyp a T) (M A P : List Word) (ka Lw : Nat) (hka : ka < A.length) (h1 : ka ≤ Lw) (h2 : Lw ≤ ka + 1)
+    (hcn : CNL T A [] (M.reverse ++ P) (ka+1) Lw) : ClosedP T (M ++ A.take (ka+1)) P (M.length + Lw) := by
+  have hkal : (A.take (ka+1)).length = ka + 1 := by rw [List.length_take]; omega
+  have hFl : (M ++ A.take (ka+1)).length = M.length + (ka + 1) := by rw [List.length_append, hkal]
+  have hpreA : ∀ i, i ≤ ka → pre (A.take (ka+1)) i = pre A i := by
+    intro i hi; unfold pre; rw [List.take_take, Nat.min_eq_left (by omega)]
+  have hpre : ∀ i, i ≤ ka → pre (M ++ A.take (ka+1)) (M.length + i) = pre A i ++ M.reverse := by
+    intro i hi
+    rw [pre_concat M (A.take (ka+1)) i (by omega), hpreA i hi]
+  rcases hcn with ⟨c0, c1, c2⟩ | ⟨c1, c2⟩
+  · -- an n-gram that cannot be extended
+    have hLw : Lw ≤ ka := by omega
+    left
+    refine ⟨by rw [hFl]; omega, ?_⟩
+    intro y
+    rw [hpre Lw hLw]
+    have := c2 y
+    simpa only [List.append_nil, List.append_assoc] using this
+  · simp only [List.append_nil] at c2
+    by_cases hlt : Lw ≤ ka
+    · -- the previous pointer does not extend right: nothing containing the next word exists
+      left
+      refine ⟨by rw [hFl]; omega, ?_⟩
+      intro y
+      rw [hpre Lw hlt, pre_eq_cons A Lw (by omega)]
+      have hgm : gm1 A Lw = pre A (Lw - 1) := by
+        cases Lw with
+        | zero => omega
+        | succ n => simp [gm1_succ A n (by omega)]
+      rw [hgm]
+      have hne : pre A (Lw-1) ++ (M.reverse ++ P) ≠ [] := by
+        rw [pre_eq_cons A (Lw-1) (by omega)]; simp
+      have hnone : T.lookup (A[Lw] :: (pre A (Lw-1) ++ (M.reverse ++ P))) = none := by
+        apply Classical.byContradiction; intro hc
+        have := H.marks _ A[Lw] hne hc
+        rw [c2] at this; cases this
+      have := lookup_none_extend H.ok [y] _ (by simp) hnone
+      simpa only [List.cons_append, List.append_assoc] using this
+    · right; left
+      have hLwe : Lw = ka + 1 := by omega
+      refine ⟨by rw [hFl]; omega, (M ++ A.take (ka+1)).length + P.length, by rw [hFl]; omega, by rw [hFl]; omega, ?_⟩
+      rw [List.take_of_length_le (by simp; omega), List.reverse_append]
+      have : pre A (Lw - 1) = (A.take (ka+1)).reverse := by
+        rw [hLwe]; rfl
+      rw [this] at c2
+      simpa only [List.append_assoc] using c2
 
 end KV.Left
